@@ -497,7 +497,7 @@ def bool_cases(ctx):
     # 4. seeded arbitrary text, oracle = regex reference model
     rng = ctx.rng('bool-text')
     alphabet = 'tTrRuUeEoOnNyYsSfFaAlL01' * 3 + ' \t\n' * 2 + '2x-._,éıſK\x00'
-    for _i in range(ctx.pick(8000, 80000)):
+    for _i in range(ctx.pick(8000, 400000)):
         k = rng.randrange(4)
         if k == 0:
             text = ''.join(rng.choice(alphabet) for _ in range(rng.randrange(0, 7)))
@@ -596,7 +596,7 @@ def int_pool(rng, n):
 
 def intlike_cases(ctx):
     rng = ctx.rng('intlike')
-    for n in int_pool(rng, ctx.pick(1500, 16000)):
+    for n in int_pool(rng, ctx.pick(1500, 80000)):
         small = abs(n) < 100
         yield dict(kind='intlike', val=n, want=True, cls='canonical-small' if small else 'canonical-int')
         yield dict(kind='intlike', val=str(n), want=True, cls='canonical-str')
@@ -672,7 +672,7 @@ def vint_cases(ctx):
             yield dict(kind='vint', val=n if form == 'int' else str(n), n=n, lo=None, hi=None,
                        cls='canonical', defaults=True)
     # seeded: random range, value placed relative to it
-    for _i in range(ctx.pick(8000, 100000)):
+    for _i in range(ctx.pick(8000, 500000)):
         bits = rng.choice([3, 8, 16, 32, 64, 100])
         a = rng.getrandbits(bits) - (1 << (bits - 1))
         b = a + rng.getrandbits(rng.randrange(1, bits + 1))
@@ -729,7 +729,7 @@ def csl_cases(ctx):
             yield dict(kind='csl', val='x' * length, length=length, name=name, lo=None, hi=None, mode='default')
     for v in (None, 5, b'abc'):
         yield dict(kind='csl', val=v, name=None, lo=None, hi=None, mode='default')
-    for _i in range(ctx.pick(5000, 60000)):
+    for _i in range(ctx.pick(5000, 300000)):
         lo = rng.choice([None, 0, 1, rng.randrange(0, 40)])
         hi = rng.choice([None, rng.randrange(1, 60), (lo or 0) + rng.randrange(0, 5)])
         if hi == 0:
@@ -767,7 +767,7 @@ def uuid_cases(ctx):
     rng = ctx.rng('uuid')
     special = [0, 1, 2 ** 128 - 1, 2 ** 127, 0x12345678123456781234567812345678, 2 ** 64, 2 ** 64 - 1,
                int('a' * 32, 16), int('f' * 31 + '0', 16), int('0' + 'f' * 31, 16)]
-    n_acc = ctx.pick(2500, 30000)
+    n_acc = ctx.pick(2500, 150000)
     for i in range(n_acc):
         v = special[i] if i < len(special) else rng.getrandbits(128)
         h = '%032x' % v
